@@ -287,7 +287,7 @@ int main(int argc, char ** argv) {
         std::istringstream es(err);
         for (std::string line; std::getline(es, line);)
             if (line.find("SUMMARY") != std::string::npos || line.find("runtime error") != std::string::npos || line.find("vs_fatal") != std::string::npos) { sum = line; break; }
-        printf("%s\n", fatal_json(args, (WIFEXITED(status) && WEXITSTATUS(status) == 10) ? "deadlock" : "crash", sum).c_str());
+        printf("\n%s\n", fatal_json(args, (WIFEXITED(status) && WEXITSTATUS(status) == 10) ? "deadlock" : "crash", sum).c_str());
         rc = 1;
     }
     vx::remove_scratch(scratch);
